@@ -41,7 +41,7 @@ def main():
         "hooks": {
             "guard": "verif",
             "enable": "go build -tags verif (the harness module in /verif/go replaces github.com/SAP/go-dblib by /repo)",
-            "baseline_off_cmd": "cd /repo && go test -mod=mod -vet=off -count=1 ./...",
+            "baseline_off_cmd": "cd /repo && go test -mod=mod -json -vet=off -count=1 -timeout 25m ./...",
             "source_commits": HOOK_COMMITS,
             "add_only": True,
         },
